@@ -29,6 +29,8 @@ pub struct Table {
     /// (specs `i` asymmetric, `j` symmetric). Sums of maxima become NaN (inf - inf) also without
     /// NaN entries.
     nonfinite: bool,
+    /// scores on a tiny scale: `k / 2^40`
+    tiny: bool,
     salt: u64,
 }
 
@@ -50,6 +52,9 @@ impl Table {
             };
         }
         let k = self.k(u64::from(a), u64::from(b)) as f32;
+        if self.tiny {
+            return k / 1_099_511_627_776.0;
+        }
         if self.coarse {
             return (self.k(u64::from(a), u64::from(b)) % 8) as f32 / 4.0;
         }
@@ -64,6 +69,9 @@ impl Table {
             return f64::from(self.val(a, b));
         }
         let k = self.k(u64::from(a), u64::from(b)) as f64;
+        if self.tiny {
+            return k / 1_099_511_627_776.0;
+        }
         if self.coarse {
             return (self.k(u64::from(a), u64::from(b)) % 8) as f64 / 4.0;
         }
@@ -84,14 +92,16 @@ impl Similarity for Table {
 fn parse_spec(s: &str) -> Option<Table> {
     let salt = s.get(1..)?.parse::<u64>().ok()?;
     match s.as_bytes().first()? {
-        b't' => Some(Table { sym: false, signed: false, coarse: false, nonfinite: false, salt }),
-        b's' => Some(Table { sym: true, signed: false, coarse: false, nonfinite: false, salt }),
-        b'n' => Some(Table { sym: false, signed: true, coarse: false, nonfinite: false, salt }),
-        b'm' => Some(Table { sym: true, signed: true, coarse: false, nonfinite: false, salt }),
-        b'u' => Some(Table { sym: false, signed: false, coarse: true, nonfinite: false, salt }),
-        b'v' => Some(Table { sym: true, signed: false, coarse: true, nonfinite: false, salt }),
-        b'i' => Some(Table { sym: false, signed: false, coarse: false, nonfinite: true, salt }),
-        b'j' => Some(Table { sym: true, signed: false, coarse: false, nonfinite: true, salt }),
+        b't' => Some(Table { sym: false, signed: false, coarse: false, nonfinite: false, tiny: false, salt }),
+        b's' => Some(Table { sym: true, signed: false, coarse: false, nonfinite: false, tiny: false, salt }),
+        b'n' => Some(Table { sym: false, signed: true, coarse: false, nonfinite: false, tiny: false, salt }),
+        b'm' => Some(Table { sym: true, signed: true, coarse: false, nonfinite: false, tiny: false, salt }),
+        b'u' => Some(Table { sym: false, signed: false, coarse: true, nonfinite: false, tiny: false, salt }),
+        b'v' => Some(Table { sym: true, signed: false, coarse: true, nonfinite: false, tiny: false, salt }),
+        b'w' => Some(Table { sym: false, signed: false, coarse: false, nonfinite: false, tiny: true, salt }),
+        b'x' => Some(Table { sym: true, signed: false, coarse: false, nonfinite: false, tiny: true, salt }),
+        b'i' => Some(Table { sym: false, signed: false, coarse: false, nonfinite: true, tiny: false, salt }),
+        b'j' => Some(Table { sym: true, signed: false, coarse: false, nonfinite: true, tiny: false, salt }),
         _ => None,
     }
 }
@@ -175,6 +185,29 @@ fn sorted_dedup(mut v: Vec<u32>) -> Vec<u32> {
 
 pub fn exec(it: &mut Interp, toks: &[&str], out: &mut Vec<String>) -> bool {
     match toks {
+        ["setsim2", slot_a, slot_b, spec, cb, a, bb] => {
+            // the two sets belong to two ontology OBJECTS (e.g. two releases): each member is looked
+            // up in the ontology of ITS set
+            let (Some(tab), Some(comb), Some(a), Some(bv)) = (parse_spec(spec), parse_comb(cb), unids(a), unids(bb)) else {
+                return false;
+            };
+            let (Some(oa), Some(ob)) = (
+                slot_a.parse::<u32>().ok().and_then(|s| it.slots.get(&s)),
+                slot_b.parse::<u32>().ok().and_then(|s| it.slots.get(&s)),
+            ) else {
+                out.push("noslot".to_string());
+                return true;
+            };
+            let sa = HpoSet::new(oa, crate::ext::mk_group(&a));
+            let sb = HpoSet::new(ob, crate::ext::mk_group(&bv));
+            let s1 = sa.similarity(&sb, tab, comb);
+            out.push(format!("SS {}", f32bits(s1)));
+            let s2 = GroupSimilarity::new(comb, tab).calculate(&sa, &sb);
+            if !same(s2, s1) {
+                out.push(format!("oracle FAIL setsim2 routes differ: HpoSet {s1} GroupSimilarity {s2}").replace(' ', "_").replacen("oracle_FAIL_", "oracle FAIL ", 1));
+            }
+            true
+        }
         ["setsim", slot, spec, cb, a, bb] => {
             let (Some(tab), Some(comb), Some(a), Some(bv)) = (parse_spec(spec), parse_comb(cb), unids(a), unids(bb)) else {
                 return false;
